@@ -287,8 +287,10 @@ class NetWorld(World):
             if r.random() < self.cfg["reload"]:
                 st = {"op": "reload", "s": s, "sep": r.choice([",", ";"])}
                 if r.random() < self.cfg["fault_rate"]:
-                    k = r.choice(["open_error", "write_error", "close_error", "read_error"])
+                    k = r.choice(["open_error", "write_error", "close_error", "read_error", "interrupt"])
                     st["fault"] = {"kind": k, "at": r.choice([1, 1, 2, 3]), "errno": 5}
+                    if k == "interrupt":
+                        st["fault"]["at"] = int(round(10 ** r.uniform(0, 3.5)))
                 return st
             return self._g_add_edge(r, s, m)
         if fam == "C06":
@@ -774,12 +776,16 @@ class NetWorld(World):
         self.fs.plan.arm(st.get("fault"))
         if st.get("fault"):
             self.stats["fault_armed:" + st["fault"]["kind"]] += 1
-        _, exc = self.call(NetworkWriter.writeToCsv, net, path, st["sep"], 1)
-        new = None
-        if exc is None:
+        def write_then_read():
+            NetworkWriter.writeToCsv(net, path, st["sep"], 1)
             fmt = NetworkFormat({"pos_edge_id": 0, "pos_source": 1, "pos_target": 2, "pos_direction": 3,
                                  "pos_wkt": 4, "separator": st["sep"], "header": 1, "srid": "ENU"})
-            new, exc = self.call(NetworkReader.readFromFile, path, fmt, False)
+            return NetworkReader.readFromFile(path, fmt, False)
+        if (st.get("fault") or {}).get("kind") == "interrupt":
+            with simfs.Interrupter(self.fs.plan):
+                new, exc = self.call(write_then_read)
+        else:
+            new, exc = self.call(write_then_read)
         fired = self.fs.plan.fired
         if fired:
             self.stats["fault_fired:" + self.fs.plan.kind] += 1
